@@ -6,13 +6,14 @@
                                               : member, or the principal holds "*"                               [role_sees]
      auth/user.go userImpl.canSeeChannel      : own channels, then every role                                    [user_sees]
      auth/role.go authorizeAnyChannel         : DEFAULT collection.  Non-empty set: some member is visible
-                                                (user.canSeeChannel, so roles count); empty set: only
-                                                princ.Channels() -- the user's OWN set -- containing "*"          [can_see_any_default]
+                                                (user.canSeeChannel, so roles count); empty set:
+                                                princ.canSeeChannel("*"), so a "*" held through a role counts
+                                                (since /repo a58a51d; before, only the user's OWN set)            [can_see_any_default]
      auth/role_collection_access.go roleImpl.AuthorizeAnyCollectionChannel                                       [role_any]
      auth/user_collection_access.go userImpl.AuthorizeAnyCollectionChannel
                                               : NAMED collection.  own access (same loop), then every role's
-                                                AuthorizeAnyCollectionChannel -- so for the empty set a role's
-                                                "*" counts here, unlike the default collection                   [can_see_any_named]
+                                                AuthorizeAnyCollectionChannel -- for the empty set a role's
+                                                "*" counts here as well                                          [can_see_any_named]
 
    Channel names are numbers; 0 is the all-channels wildcard "*", 1 the public channel "!". *)
 From SG Require Import Base.Prelude.
@@ -42,7 +43,7 @@ Definition role_any (r : role) (cs : list N) : bool :=
 
 Definition can_see_any_default (u : user) (cs : list N) : bool :=
   match cs with
-  | [] => mem star (chans_of (u_self u))
+  | [] => user_sees u star
   | _ => existsb (user_sees u) cs
   end.
 
